@@ -1,0 +1,38 @@
+//go:build verif
+
+package transport
+
+import (
+	"context"
+
+	"github.com/IrineSistiana/connpool"
+)
+
+// Verification hook for property C05 (add-only, compiled with -tags verif only).
+
+// VerifNewPipelineTransportPreset is NewPipelineTransport, except that every connection it dials
+// starts with nextQid = q0 (before any exchange can see the connection). It lets a check reach
+// the wire-id exhaustion boundary (65535/65536) without 65536 real exchanges.
+func VerifNewPipelineTransportPreset(opts PipelineOpts, q0 int) *PipelineTransport {
+	t := &PipelineTransport{
+		opts:   opts,
+		logger: nonNilLogger(opts.Logger),
+	}
+	t.pool = connpool.NewPool(connpool.Opts{
+		Dial: func(ctx context.Context) (connpool.Conn, error) {
+			ctx, cancel := context.WithTimeout(ctx, t.dialTimeout())
+			defer cancel()
+			c, err := opts.DialContext(ctx)
+			if err != nil {
+				return nil, err
+			}
+			pc := newPipelineConn(c, t)
+			pc.m.Lock()
+			pc.nextQid = q0
+			pc.m.Unlock()
+			return pc, nil
+		},
+		MaxStream: t.maxConcurrentQuery(),
+	})
+	return t
+}
